@@ -98,7 +98,9 @@ THIN_KINDS = ("series-col", "series-row", "vector-series-col", "vector1-series")
 
 
 @ob("C10.workflow", cases=product_cases(kind=KINDS, overwrite=(False, True), variant=("plain", "crop+meta", "series-fn"))
-    + [dict(kind=k, overwrite=o, variant=v) for k in THIN_KINDS for o in (False, True) for v in ("plain", "crop+meta") if not (k == "series-row" and v == "crop+meta")], mods=MODS, funcs=FUNCS, samples=(1, 3),
+    + [dict(kind=k, overwrite=o, variant=v) for k in THIN_KINDS for o in (False, True) for v in ("plain", "crop+meta") if not (k == "series-row" and v == "crop+meta")]
+    # the workflow knows nothing about a correction's own attributes: one that calls itself inactive is still applied through correct_array
+    + [dict(kind=k, overwrite=o, variant="inactive-attr") for k in ("array", "scalar", "optical", "series") for o in (False, True)], mods=MODS, funcs=FUNCS, samples=(1, 3),
     cite="applying it to an image without overwrite leaves the input untouched and returns an image of the same kind whose pixel data "
          "equals the correction applied to the raw array and whose metadata is the input's plus the correction's declared updates; "
          "with overwrite it modifies and returns the very same object with the same result. On a time series the result equals applying "
@@ -109,6 +111,8 @@ def c10_workflow(ctx, kind, overwrite, variant):
     newd = ctx.reals("nd", 2, pos=True, sample=(0.5, 4.0))
     meta = {"dimensions": list(newd), "name": "corrected"} if variant == "crop+meta" else {}
     P = Probe(a, b, crop=variant == "crop+meta", meta=meta, series_fn=variant == "series-fn")
+    if variant == "inactive-attr":
+        P.active = False
     inp, arr = make_input(ctx, kind)
     if kind == "array":
         snap = inp.copy()
